@@ -5,38 +5,140 @@
    AFTER the five repairs this property led to (/repo c22d480, fda3f9e, 2e6bc3e, 8bc4a03, 36a9ed3).
 
    What is proved here (all unconditional; "partial" = a part of the property's statement, see "what is missing" below)
+   -- the program level (binary form)
+     c12_program_binary            a program whose relation r0 is tagged #[ds(trrel_uf)], run by the engine model on a validated plan,
+                                   computes the least model of the program extended with the explicit rules
+                                     r0(x,x) <-- r0(x,_);  r0(y,y) <-- r0(_,y);  r0(x,z) <-- r0(x,y), r0(y,z)
+     c12_engine_theorem            the engine theorem for a provider-backed relation from laws over the histories generated code
+                                   produces (a stratum boundary only after a merge that moved nothing); it generalises
+                                   Engine/ProvProofsW.prun_plan_correct_w (c12_engine_laws_generalise)
+     c12_binary_engine_laws        the packaged binary provider meets those laws with cl = reflexive transitive closure on mentioned
+                                   elements;  c12_rules_bridge: closed under that cl = closed under the three explicit rules
+   -- the binary provider on EVERY history (Provider.v histories PIns / PMerge / PRestart with a boundary only after a merge that
+      moved nothing, which is where generated code ends a stratum; insertions are arbitrary, guarded or not)
+     c12_binary_exact              after every operation total + delta serve EXACTLY the reflexive transitive closure of the pairs
+                                   merged so far (soundness and completeness, recursive histories included)
+     c12_binary_p3_weak            law P3 in the weak form  total' subset of (total + delta) + delta'  at every merge
+     c12_binary_quiescent          after a merge with nothing new, delta adds nothing to total (loop exit)
+     c12_binary_ops_never_fail     no operation of the model fails (insert, merge, iter_all, contains of both versions)
+     c12_binary_contains           contains_key agrees with iter_all for both versions
+     c12_binary_boundary           a boundary hands total over as the next delta and empties total
+     c12_binary_provider_is_model  the packaged provider walks through exactly the states of the operation-sequence model
+                                   (run_state (bin_prov dom)) that the tie compares with the real provider, for every history
+     c12_any_boundary_refuted      the exactness statement does NOT extend to a boundary in the middle of a round: total holds the
+                                   reflexive pair of the elements of the last `new` while the ghost of Byods/Provider.v drops the
+                                   round (so Engine/ProvLaws.engine_laws, quantified over boundaries anywhere, is not met; the
+                                   engine never produces such a history)
+   -- earlier statements
      c12_nonrecursive_exact        binary form, non-recursive use: a stratum that only inserts ends without failure, and every view of
                                    what it leaves serves EXACTLY the reflexive transitive closure (soundness and completeness)
      c12_total_exact               a Total-shaped version over a structure satisfying C18's invariant (in its weak form, which every
                                    structure the provider builds satisfies) serves exactly the closure of the pairs it was built from
-     c12_sound_partial             binary form, EVERY sequence of operations: every operation runs, and everything any view of delta,
-                                   total or the stored relation serves lies in the closure of the pairs handed to insert
+     c12_sound_partial             binary form, EVERY sequence of operations (any order, boundaries anywhere): every operation runs,
+                                   and everything any view of delta, total or the stored relation serves lies in the closure of the
+                                   pairs handed to insert
      c12_never_panics_partial      binary form, EVERY sequence of operations: no operation of the provider fails (no assert, unwrap,
                                    index, "unexpected shape" panic) and the inner semi-naive loop of every merge terminates
                                    (within (number of classes)^2 + 2 rounds)
      c12_protocol_any_union_find   the same two statements for ANY union-find structure satisfying the interface [truf_iface]
      c12_iface_discharged          C18's invariant in its weak form satisfies that interface (tr_add, add_node_new, the queries)
      c12_inner_loop_round          one round of the inner loop of the merge keeps the invariant "every processed class pair is
-                                   saturated against total and new" (the completeness half of the loop, class level)
-   Provider law P3 (nothing becomes readable from total without having been served as delta) is used in the form
+                                   saturated against total and new" (the class-level core of c12_binary_exact)
+   Provider law P3 (nothing becomes readable from total without having been served as delta) holds in the form
      total_{i+1}  subset of  total_i + delta_i + delta_{i+1}
-   (checker p3_check).  The literal form  total_{i+1} subset of total_i + delta_i  of DESIGN 5/C10 is violated by the repaired
-   provider, necessarily: an element mentioned for the first time becomes a node of total in the same merge that serves its
-   reflexive pair as delta, so the pair is readable from total and from delta in the same round (c12_literal_p3_fails); the
-   semi-naive argument only needs the weaker form, because the delta variants of the coming iteration cover such a tuple.
+   (c12_binary_p3_weak; checker p3_check for the tie).  The literal form  total_{i+1} subset of total_i + delta_i  of DESIGN 5/C10 is
+   violated by the repaired provider, necessarily: an element mentioned for the first time becomes a node of total in the same merge
+   that serves its reflexive pair as delta, so the pair is readable from total and from delta in the same round
+   (c12_literal_p3_fails); the semi-naive argument only needs the weaker form, because the delta variants of the coming iteration
+   cover such a tuple (that is what c12_engine_theorem proves).
    The five former refutations are now positive (the theorems c12_witness_...); the refutations themselves are kept on the model of the code
    before the repairs (Byods/TrUfProvBeforeFix.v, module BeforeFix): the theorems c12_before_fix_refuted_...
-   What is missing (carried by the tie only): completeness of delta + total and law P3 for EVERY recursive history of the binary
-   form (c12_inner_loop_round is the core of it; the step from class pairs to element pairs and across merges is not done);
-   soundness, completeness and panic-freedom of the ternary adaptor for every history (only the five witnesses and the tie). *)
+   What is missing (carried by the tie only): c12_binary_exact speaks about the full-index views (iter_all / contains of total and
+   delta); exactness of the keyed views (ind0 / ind1 get and iter_all) of a Delta on recursive histories is proved only as soundness
+   (c12_sound_partial) — their completeness follows the same class pairs but is not stated; soundness, completeness and
+   panic-freedom of the ternary adaptor for every history (only the five witnesses and the tie). *)
 From Coq Require Import List Arith Bool ZArith.
+From AV Require Import Engine.Core Engine.Sem Engine.Eval Engine.Validate Engine.Naive Engine.Interface.
+From AV Require Import Byods.Provider Engine.EvalProv Engine.InterfaceProv Engine.ProvLaws.
 From AV Require Import UF.UfBase.
 From AV Require Import UF.TrUfModel.
 From AV Require Import UF.TrUfInv.
 From AV Require Import Byods.TrUfProvModel.
 From AV Require Import Byods.TrUfProvProofs.
 From AV Require Import Byods.TrUfProvBeforeFix.
+From AV Require Import Byods.TrUfProvLaws.
+From AV Require Import Byods.TrUfProvEngine.
+From AV Require Import Byods.TrUfProvProgram.
 Import ListNotations.
+Close Scope Z_scope.
+
+(* ---- the program level, binary form *)
+Theorem c12_program_binary : forall I swap r0 arities P pl fuel F0 st,
+  In (r0, 2%nat) arities -> arities_functional arities -> wf_facts arities F0 = true -> no_agg P = true ->
+  (forall f, In f F0 -> fst f <> r0) -> validate arities P pl = true ->
+  prun_plan I swap trrel_uf_binary r0 fuel pl F0 = Some st ->
+  least_model I (P ++ rtc_rules r0) F0 (pfacts trrel_uf_binary r0 st).
+Proof. exact trrel_uf_program_binary. Qed.
+
+Theorem c12_engine_theorem : forall I swap (PV : provider tuple) (cl : list tuple -> list tuple) (r0 : rel) (n0 : nat) arities P pl fuel F0 st,
+  closure_op tuple cl -> qengine_laws PV cl -> cl_arity cl n0 -> In (r0, n0) arities ->
+  arities_functional arities -> wf_facts arities F0 = true -> no_agg P = true ->
+  (forall f, In f F0 -> fst f <> r0) -> validate arities P pl = true ->
+  prun_plan I swap PV r0 fuel pl F0 = Some st ->
+  least_model_cl I P cl r0 F0 (pfacts PV r0 st).
+Proof. exact prun_plan_correct_q. Qed.
+
+Theorem c12_engine_laws_generalise : forall PV cl, engine_laws PV cl -> qengine_laws PV cl.
+Proof. exact qlaws_of_engine_laws. Qed.
+
+Theorem c12_binary_engine_laws : closure_op tuple rtc2 /\ cl_arity rtc2 2 /\ qengine_laws trrel_uf_binary rtc2.
+Proof. exact (conj rtc2_closure_op (conj rtc2_arity trrel_uf_binary_qengine_laws)). Qed.
+
+Theorem c12_rules_bridge : forall I P r0 F0 M,
+  least_model_cl I P rtc2 r0 F0 M <-> least_model I (P ++ rtc_rules r0) F0 M.
+Proof. exact least_model_rtc2_iff. Qed.
+
+(* a non-trivial instance of the closure operator on tuples: a chain and a back edge, and a tuple of the wrong shape left alone *)
+Example c12_example_rtc2 : length (rtc2 [[1; 2]; [2; 3]; [3; 1]; [7]; [5; 5]]%Z) = 11%nat.
+Proof. vm_compute. reflexivity. Qed.
+
+(* ---- the binary provider on every history *)
+Theorem c12_binary_exact : forall h, qhist h ->
+  forall x y, In (x, y) (Provider.served T2 PU (Provider.run T2 PU h)) <-> rtc (g_td T2 (ghost_of T2 h)) x y.
+Proof. exact pu_served. Qed.
+
+Theorem c12_binary_p3_weak : forall h, qhist h ->
+  incl (Provider.p_read T2 PU (Provider.run T2 PU (h ++ [PMerge])) VTotal)
+       (Provider.served T2 PU (Provider.run T2 PU h) ++ Provider.p_read T2 PU (Provider.run T2 PU (h ++ [PMerge])) VDelta).
+Proof. exact pu_merge_total. Qed.
+
+Theorem c12_binary_quiescent : forall h, qhist h -> g_new T2 (ghost_of T2 h) = [] ->
+  incl (Provider.served T2 PU (Provider.run T2 PU (h ++ [PMerge]))) (Provider.p_read T2 PU (Provider.run T2 PU (h ++ [PMerge])) VTotal).
+Proof. exact pu_quiescent. Qed.
+
+Theorem c12_binary_ops_never_fail : forall h n d t, qhist h -> Provider.run T2 PU h = (n, d, t) ->
+  (forall x y, exists r, c_insert n x y = Ok r) /\ (exists r, c_merge n d t = Ok r) /\
+  (forall v, exists l, c_iter_all (pu_ver (n, d, t) v) = Ok l) /\
+  (forall v x y, exists b, c_contains (pu_ver (n, d, t) v) x y = Ok b).
+Proof. exact pu_ops_ok_eq. Qed.
+
+Theorem c12_binary_contains : forall h v p, qhist h ->
+  (Provider.p_contains T2 PU (Provider.run T2 PU h) v p = true <-> In p (Provider.p_read T2 PU (Provider.run T2 PU h) v)).
+Proof. exact pu_contains_iff. Qed.
+
+Theorem c12_binary_boundary : forall h,
+  incl (Provider.p_read T2 PU (Provider.run T2 PU h) VTotal) (Provider.served T2 PU (Provider.run T2 PU (h ++ [PRestart]))) /\
+  Provider.p_read T2 PU (Provider.run T2 PU (h ++ [PRestart])) VTotal = [].
+Proof. intros h. exact (conj (pu_restart_serves h) (pu_restart_total h)). Qed.
+
+Theorem c12_binary_provider_is_model : forall dom h,
+  exists st, run_state (bin_prov dom) (ps_init (bin_prov dom)) (ops_of h) = Ok st /\
+             Provider.run T2 PU h = (s_new st, s_delta st, s_total st).
+Proof. exact pu_is_model. Qed.
+
+Theorem c12_any_boundary_refuted :
+  exists h x y, In (x, y) (Provider.served T2 PU (Provider.run T2 PU h)) /\ ~ rtc (g_td T2 (ghost_of T2 h)) x y.
+Proof. exact pu_any_boundary_refuted. Qed.
 
 (* ---- non-recursive use: exact, unconditional *)
 Theorem c12_nonrecursive_exact : forall dom ins,
@@ -138,6 +240,20 @@ Example c12_example_cycle : protocol_ok wit_cycle = true /\ any_panic (run_bin 3
   length (served 0 (snd (last_read (run_bin 3 wit_cycle)))) = 9.
 Proof. exact wit_cycle_runs. Qed.
 
+Print Assumptions c12_program_binary.
+Print Assumptions c12_engine_theorem.
+Print Assumptions c12_engine_laws_generalise.
+Print Assumptions c12_binary_engine_laws.
+Print Assumptions c12_rules_bridge.
+Print Assumptions c12_example_rtc2.
+Print Assumptions c12_binary_exact.
+Print Assumptions c12_binary_p3_weak.
+Print Assumptions c12_binary_quiescent.
+Print Assumptions c12_binary_ops_never_fail.
+Print Assumptions c12_binary_contains.
+Print Assumptions c12_binary_boundary.
+Print Assumptions c12_binary_provider_is_model.
+Print Assumptions c12_any_boundary_refuted.
 Print Assumptions c12_nonrecursive_exact.
 Print Assumptions c12_total_exact.
 Print Assumptions c12_sound_partial.
